@@ -5,6 +5,7 @@ import Guard.Model.Cli
 import Guard.Model.Report
 import Guard.Model.Merge
 import Guard.Model.TestReport
+import Guard.Model.Rulegen
 import Lean.Data.Json
 /-
   guard_model — line-protocol driver for the executable model.
@@ -438,6 +439,15 @@ def handle (j : Json) : Json :=
       | .passed n s => Json.mkObj [("k", "passed"), ("name", sOf n), ("evaluated", stJ s)]
       | .failed n e ev => Json.mkObj [("k", "failed"), ("name", sOf n), ("expected", stJ e), ("evaluated", Json.arr (ev.map stJ).toArray)]
       | .noExpectation n => Json.mkObj [("k", "skipped"), ("name", sOf n)]).toArray)]
+  | "rulegen" =>
+    let rs : List Rulegen.Resource := (jarr (jfield j "resources")).map fun r =>
+      { type := jstr (jfield r "type"),
+        props := (jarr (jfield r "props")).filterMap fun pv => match jarr pv with
+          | [p, v] => some (jstr p, jstr v)
+          | _ => none }
+    let m := Rulegen.genRules rs
+    Json.mkObj [("id", id), ("map", Json.arr (m.map fun (t, pm) =>
+      Json.arr #[Json.str t, Json.arr (pm.map fun (p, vs) => Json.arr #[Json.str p, Json.arr (vs.map Json.str).toArray]).toArray]).toArray)]
   | "consistent" =>
     let t := parseRec (jfield j "tree")
     let ok := Consistent t
